@@ -153,6 +153,62 @@ func checkC01(c *Ctx, r *Report) {
 	checkAnnotationConst(c, r, "C01.d", "core/metadata.GetDeprecationOpts", "GleeceAnnotationDeprecated")
 	checkAnnotationConst(c, r, "C01.d", rred, "GleeceAnnotationMethod")
 
+	// the emitters get the pipeline's metadata itself (no renamed/filtered copy)
+	checkManagerPassThrough(c, r, "C01.d")
+	// GetMethodHideOpts: a method carrying @Hidden - with or without a value - is hidden;
+	// `not hidden` is answered only when there is no annotation holder / no @Hidden attribute
+	if fi := need(c, r, "C01.a", "core/metadata.GetMethodHideOpts"); fi != nil {
+		viol := ""
+		var sites []string
+		nAlways := 0
+		var stack []ast.Node
+		ast.Inspect(fi.Decl.Body, func(n ast.Node) bool {
+			if n == nil {
+				stack = stack[:len(stack)-1]
+				return true
+			}
+			stack = append(stack, n)
+			rs, ok := n.(*ast.ReturnStmt)
+			if !ok || len(rs.Results) != 1 {
+				return true
+			}
+			cl := compositeOf(rs.Results[0])
+			if cl == nil {
+				viol = fmt.Sprintf("%s: GetMethodHideOpts returns something other than a MethodHideOptions literal", w.pos(rs.Pos()))
+				return true
+			}
+			typ := ""
+			for _, el := range cl.Elts {
+				if kv, ok := el.(*ast.KeyValueExpr); ok && exprString(kv.Key) == "Type" {
+					typ = exprString(kv.Value)
+				}
+			}
+			sites = append(sites, w.pos(rs.Pos()))
+			if strings.HasSuffix(typ, "HideMethodAlways") {
+				nAlways++
+				return true
+			}
+			// any other answer must sit directly under an `x == nil` test
+			underNil := false
+			for i := len(stack) - 2; i >= 0; i-- {
+				if is, ok := stack[i].(*ast.IfStmt); ok {
+					if be, ok := is.Cond.(*ast.BinaryExpr); ok && be.Op == token.EQL && exprString(be.Y) == "nil" {
+						underNil = true
+					}
+					break
+				}
+			}
+			if !underNil {
+				viol = fmt.Sprintf("%s: GetMethodHideOpts answers %s for a method that does carry @Hidden: such a method is documented although it was annotated to be kept out (IsHiddenAsset is true for HideMethodAlways only)", w.pos(rs.Pos()), typ)
+			}
+			return true
+		})
+		if nAlways == 0 {
+			viol = "GetMethodHideOpts never answers HideMethodAlways"
+		}
+		r.add("C01.a", "guardedby", fi.Key+":@Hidden=>always", "a method annotated @Hidden (any form) is hidden; `never` is answered only for a missing holder/attribute", []string{fi.Key}, sites, viol)
+	}
+
 	// IsHiddenAsset semantic skeleton: true iff Type == HideMethodAlways
 	if fi := need(c, r, "C01.a", "generator/swagen/swagtool.IsHiddenAsset"); fi != nil {
 		viol := ""
